@@ -71,6 +71,52 @@ def run(tier):
                          dict(op=n, primitives=sorted(set(bad))))
         else:
             rep.ok(key, "R08.trivial", None)
+    # an element type that is trivially default constructible but not trivial (user-provided copy operations): the sizing constructors and reextent(x)
+    # must not write to the elements either.  Two cooperating sites decide this - the caller's compile-time guard and the run-time shortcut inside the
+    # construction helper - so the rule combines both: an element-construction event in the container layer counts only when the helper it names,
+    # interpreted with its callees inlined, reaches the allocator's construct (or stores to the slots) for this element type.
+    import re as _re
+    from vlib import absint as _absint
+    try:
+        modc = ownrules.module(wd, 2, prelude="#define TRACKED_TDC 1", tag="D2_tdc")
+        full = _absint.Interp(modc.mod, inline_extra=_re.compile(r"."), max_paths=4000, max_depth=120)
+        full.max_visits = 6
+        touches = {}
+        for name, f in sorted(modc.mod.funcs.items(), key=lambda kv: kv[1].demangled):
+            mm = _re.search(r"(?:^| )xtd::alloc_uninitialized_(default|value)_construct_n\(ObsAlloc&, Tracked\*, long\)", _absint.short(f.demangled))
+            if not mm:
+                continue
+            ptypes = [pt for pn, pt, sret in f.params]
+            argv = [("c", 3) if pt == "i64" else ("p", ("param", k), 0) for k, pt in enumerate(ptypes)]
+            touches[mm.group(1)] = touches.get(mm.group(1), False) or any(e[0] in ("write", "writeblk") or (e[0] == "ext" and _re.search(r"::construct[<(]", str(e[1])))
+                                       for oc, rv, path in full.run(name, argv, {}) for e in path.events)
+        if set(touches) != {"default", "value"}:
+            rep.break_("R08.trivial (trivially default constructible, not trivial): helper summaries found only for %s" % sorted(touches))
+        resc = ownrules.analyse(modc, rep, select=["ctor_ext", "ctor_ext_alloc", "sctor_ext", "sctor_ext_alloc", "reextent", "reextent_rvalue"])
+        for n in ("ctor_ext", "ctor_ext_alloc", "sctor_ext", "sctor_ext_alloc", "reextent", "reextent_rvalue"):
+            key = "R08.trivial@%s(trivially default constructible, not trivial)" % n
+            if n not in resc:
+                rep.break_("operation %s missing for the trivially default constructible element type" % n)
+                continue
+            bad, unknown = set(), set()
+            for r in resc[n]:
+                for e in r["events"]:
+                    if e[0] != "construct":
+                        continue
+                    mm = _re.search(r"uninitialized_(default|value)_construct", str(e[1]))
+                    if mm is None:
+                        unknown.add(str(e[1])[:80])
+                    elif touches.get(mm.group(1)):
+                        bad.add(str(e[1])[:80])
+            if bad:
+                rep.violated(key, "R08.trivial", "%s with an element type that is trivially default constructible (but not trivial) runs %s, and that helper constructs the "
+                             "elements for this type: the sizing operation writes to elements it must leave alone" % (modc.ops[n]["body"], sorted(bad)), dict(op=n, primitives=sorted(bad)))
+            elif unknown:
+                rep.inconclusive(key, "R08.trivial", "element-construction primitives without a summary: %s" % sorted(unknown))
+            else:
+                rep.ok(key, "R08.trivial", dict(helpers_touching_elements=touches))
+    except _absint.Limit as e:
+        rep.break_("R08.trivial (trivially default constructible, not trivial): %s" % str(e)[:200])
     # 0-dimensional arrays (one element, their own class specialisation): the default / sizing constructors with a trivial element
     import os
     from vlib import ir0, absint, owning
